@@ -357,6 +357,10 @@ class ProcTable:
         return p
 
     def sys_kill(self, vk, pid, sig):
+        if not -2**31 <= pid < 2**31:
+            # os.kill() converts to pid_t (C int) before the syscall
+            raise OverflowError("signed integer is greater than maximum" if pid > 0 else
+                                "signed integer is less than minimum")
         vk.access("kill", f"kill({pid},{int(sig)})")
         if pid <= 0:
             vk.breaches.append(("kill_nonpositive_pid", pid, int(sig)))
